@@ -457,6 +457,43 @@ def check_f(ctx, facts):
             ctx.violation('C10.f', 'registration', bad + ' (after sorting twice)', where, witness=dict(configuration='gated sub-block next to ungated blocks; getSimulator() twice'))
         else:
             ctx.ok('C10.f', 'registration', 'after two sorts every clockable leaf is registered exactly once under the driver of its nearest ancestor (2 domains)')
+        # --- a driver placed on a leaf: only that leaf changes domain, whatever was built before or after it under the same parent
+        D2 = Design(facts)
+        el2 = D2.el
+        x = D2.wire('x', 2)
+        grp = D2.make('Logic', 'grp')
+        mk = lambda parent, nm: el2.instantiate(el2.find_class('Reg'), [parent, nm, x, D2.wire('q_' + nm, 2)], {})
+        r0, r1, r2 = mk(grp, 'r0'), mk(grp, 'r1'), mk(grp, 'r2')
+        inner = el2.instantiate(el2.find_class('DelayLine'), [grp, 'dl', x, None, None, D2.wire('q_dl', 2), 2], {})
+        top = mk(D2.sys, 'top')
+        d0b = D2.sys.attrs['clockDriver']
+        dL = el2.instantiate(el2.find_class('ClockDriver', BASE), ['leafclk'], dict(base=d0b, enable=D2.wire('en2')))
+        r1.attrs['clockDriver'] = dL
+        sim2 = ObjV(sc)
+        sim2.attrs['sys'] = D2.sys
+        for rnd_ in (1, 2):
+            el2.steps = 0
+            el2.call(el2.getattr_(sim2, 'topologicalSort'), [], {}, {})
+        reg2 = {}
+        for drv, cds in sim2.attrs['clockDrivers'].items():
+            for o in cds.attrs.get('clockables', []):
+                reg2.setdefault(o.oid, []).append(drv)
+        bad2 = None
+        for lf in D2.leaves():
+            if facts.lookup(lf.cinfo, 'clock') is None:
+                continue
+            want = dL if lf is r1 else d0b
+            got = reg2.get(lf.oid, [])
+            if len(got) != 1 or got[0] is not want:
+                bad2 = 'clockable leaf %s is registered %d time(s)%s' % (lf.attrs.get('name'), len(got), '' if len(got) != 1 else
+                                                                       (' under the driver of its sibling leaf' if got[0] is dL else ' under the wrong driver'))
+                break
+        if bad2:
+            ctx.violation('C10.f', 'registration:driver-on-leaf', bad2, where,
+                          witness=dict(configuration='sys > grp > [Reg r0, Reg r1 (own gated driver), Reg r2, DelayLine dl] ; sys > Reg top ; sorted twice'))
+        else:
+            ctx.ok('C10.f', 'registration:driver-on-leaf', 'a driver placed on one leaf register moves only that leaf: siblings built before and after it, a nested block and a top-level '
+                   'register stay under the system driver')
         return True
     except (ElabError, NetError, PyExc, ElabRaise) as e:
         ctx.note('C10.f scenarios not evaluable: %s' % str(e)[:120])
